@@ -416,7 +416,11 @@ const CELLS: &[CellDef] = &[
     CellDef { name: "CompressedSparseTrie(varied)", kind: Kind::Sparse, status: "M+S" },
     CellDef { name: "NestedTrieDawg(varied)", kind: Kind::Dawg, status: "S-only" },
     CellDef { name: "ParallelLoudsTrie(varied)", kind: Kind::Patricia, status: "S-only" },
+    // ---- refused operations inside histories: an automaton with room for DAWG_CAP states refuses the insert that would need more
+    CellDef { name: DAWG_CAPPED, kind: Kind::Dawg, status: "S-only" },
 ];
+const DAWG_CAPPED: &str = "NestedTrieDawg(max_states=12)";
+const DAWG_CAP: usize = 12;
 
 fn small_pool() -> Result<std::sync::Arc<SecureMemoryPool>, String> { SecureMemoryPool::new(SecurePoolConfig::small_secure()).map_err(es) }
 
@@ -566,6 +570,7 @@ fn make(cell: &str, cfg: u64) -> Result<Box<dyn Tr>, String> {
                 };
                 Box::new(WDawg(NestedTrieDawg::with_config(c).map_err(es)?, if r.chance(1, 4) { Some(vec![]) } else { None }))
             }
+            DAWG_CAPPED => Box::new(WDawg(NestedTrieDawg::with_config(DawgConfig { max_states: DAWG_CAP, enable_cache: false, ..DawgConfig::default() }).map_err(es)?, None)),
             "SimpleDawg" => Box::new(WSDawg(SimpleDawg::new())),
             "ParallelLoudsTrie" | "ParallelLoudsTrie(varied)" => {
                 let rt = tokio::runtime::Builder::new_current_thread().build().map_err(|e| format!("{:?}", e))?;
@@ -693,6 +698,9 @@ fn history(cx: &mut Ctx, cell: &CellDef, case: &Case, force_coq: bool, allow_coq
     let mut n_inserts_ok: usize = 0;      // critical-bit stub predicate: len counts every accepted insert call
     let mut n_insert_calls_dawg: usize = 0;
     let mut failed = false;
+    // every non-empty prefix of every key an insert was called with: the uncompressed trie of all of them (+ the root) bounds the
+    // number of states the automaton can hold, whatever refused inserts left behind
+    let mut attempted: std::collections::HashSet<Key> = std::collections::HashSet::new();
     macro_rules! fail { ($class:expr, $($arg:tt)*) => {{ let cl: Option<&str> = $class; report(&mut cx.sum, name, cl, cj.clone(), &format!($($arg)*)); if cl.is_none() { failed = true; cx.sum.dist(&format!("unlisted_failures/{}", name)); } }}; }
 
     if let Some(b) = &case.big {
@@ -717,12 +725,15 @@ fn history(cx: &mut Ctx, cell: &CellDef, case: &Case, force_coq: bool, allow_coq
         match *op {
             INS | INS_ID => {
                 // INS_ID: the second insert door where the type has one, else the first
+                for c in 1..=k.len().min(4 * DAWG_CAP) { attempted.insert(k[..c].to_vec()); }
                 let r = guarded(|| if *op == INS_ID { match t.insert_alt(k) { Some(r) => r, None => t.insert(k).map(|_| None) } } else { t.insert(k).map(|_| None) });
                 match r {
                     Err(p) => { fail!(None, "step {}: insert({:?}) panicked: {}", step, k, p); obs.push("[[2]%N]".into()); coq_ok = false; break; }
                     Ok(Err(e)) => {
                         obs.push("[[1]%N]".into());
-                        if kind == Kind::Louds && k.len() > 255 { fail!(Some("louds_key_over_255_refused"), "step {}: insert of a {}-byte key refused: {}", step, k.len(), e); }
+                        // a refused insert leaves the set as it was: the history goes on and the object is compared as after any other step
+                        if kind == Kind::Louds && k.len() > 255 { cx.sum.dist("refused_ops/louds_key_over_255"); fail!(Some("louds_key_over_255_refused"), "step {}: insert of a {}-byte key refused: {}", step, k.len(), e); }
+                        else if name == DAWG_CAPPED && e.contains("Maximum states") && attempted.len() + 1 > DAWG_CAP { cx.sum.dist("refused_ops/dawg_max_states"); }
                         else { fail!(None, "step {}: insert({:?}) returned an error: {}", step, k, e); }
                     }
                     Ok(Ok(id)) => {
@@ -1059,6 +1070,8 @@ fn gen_pool(r: &mut Rng, long: bool) -> Vec<Key> {
         pool.push(k.clone());
         if r.chance(1, 2) { k.truncate(n - 1); pool.push(k); }
     }
+    // refused operations inside short histories: one key in eight pools is beyond the 255-byte limit of the LOUDS cells
+    if !long && r.chance(1, 8) { let n = *r.pick(&[256usize, 257, 300]); let b = *r.pick(alpha); pool.push(vec![b; n]); }
     pool.sort(); pool.dedup();
     pool
 }
@@ -1143,6 +1156,52 @@ fn staged() -> Vec<Vec<Op>> {
                 out.push(ops);
             }
         }
+    }
+    out
+}
+
+/// Deterministic family "refused operations inside histories": inserts that a cell may refuse (a key beyond the 255-byte limit of
+/// the LOUDS record format, a key that needs more states than a capped automaton has room for) through both insert doors, in the
+/// middle of a history that goes on - the set is compared after the refused step as after any other (the post-mutation check reads
+/// len, is_empty and every key of the history), then mutations that are accepted, another refusal, and a dump through every observer.
+/// On the cells that accept such keys the same histories are ordinary long-key histories.
+fn refused() -> Vec<Vec<Op>> {
+    let uni: Vec<Key> = vec![vec![], b"a".to_vec(), b"ab".to_vec(), b"b".to_vec(), vec![b'a', 0]];
+    let mut out = vec![];
+    for (v, &n) in [256usize, 257, 300, 256, 301, 256].iter().enumerate() {
+        let long: Key = match v % 3 { 0 => vec![b'a'; n], 1 => { let mut k = vec![b'a'; n]; k[n - 1] = b'b'; k } _ => (0..n).map(|i| (i % 251) as u8).collect() };
+        let at_limit: Key = long[..255].to_vec();   // the longest key the record format takes: a member whose extension is refused
+        let (d1, d2) = if v % 2 == 0 { (INS, INS_ID) } else { (INS_ID, INS) };
+        let mut ops: Vec<Op> = vec![(INS, b"ab".to_vec()), (INS_ID, b"a".to_vec())];
+        if v >= 3 { ops.push((INS, at_limit.clone())); }
+        ops.push((d1, long.clone()));
+        ops.push((LEN, vec![])); ops.push((KEYS, vec![])); ops.push((HAS, long.clone())); ops.push((HAS2, long.clone())); ops.push((ACC, long.clone())); ops.push((LP, long.clone()));
+        ops.push((PRE, long[..3].to_vec())); ops.push((NODEID, long.clone())); ops.push((FSAWALK, vec![]));
+        // accepted mutations after the refusal, through both doors, then the refusal again through the other door
+        ops.push((d2, b"b".to_vec())); ops.push((REM, b"a".to_vec())); ops.push((d1, at_limit.clone()));
+        ops.push((d2, long.clone()));
+        ops.push((d2, vec![b'a', 0]));
+        if v == 4 { ops.push((CLONE, vec![])); ops.push((SHRINK, vec![])); ops.push((d1, long.clone())); }
+        if v == 5 { ops.push((REBUILD, vec![1])); ops.push((d1, long.clone())); ops.push((INS, b"a".to_vec())); }
+        dump_small(&mut ops, &uni);
+        ops.push((HAS, long.clone())); ops.push((HAS, at_limit.clone())); ops.push((ACC, at_limit.clone())); ops.push((LP, long.clone())); ops.push((PRE2, long[..2].to_vec()));
+        out.push(ops);
+    }
+    // the capped automaton: short keys until the room is used up, the refused insert, removal is not offered, the observers, a key
+    // that still fits (a prefix of a stored key needs no state), the refusal again
+    for v in 0..4usize {
+        let (d1, d2) = if v % 2 == 0 { (INS, INS_ID) } else { (INS_ID, INS) };
+        let mut ops: Vec<Op> = vec![(d1, b"abcde".to_vec()), (d2, b"abxyz".to_vec()), (d1, b"b".to_vec())];
+        let over: Key = if v < 2 { b"bcdefg".to_vec() } else { b"abcdq012".to_vec() };
+        ops.push((d2, over.clone()));
+        ops.push((LEN, vec![])); ops.push((HAS, over.clone())); ops.push((ACC, over.clone())); ops.push((FSAWALK, vec![])); ops.push((LP, over.clone()));
+        ops.push((d1, b"abc".to_vec()));
+        ops.push((d1, over.clone()));
+        ops.push((d2, b"ab".to_vec()));
+        if v == 3 { ops.push((REBUILD, vec![0])); ops.push((d2, over.clone())); }
+        dump_small(&mut ops, &uni);
+        for k in [&b"abcde"[..], b"abxyz", b"abc", b"abcd", b"bc", &over[..]] { ops.push((HAS, k.to_vec())); ops.push((ACC, k.to_vec())); }
+        out.push(ops);
     }
     out
 }
@@ -1311,7 +1370,7 @@ fn isolated(cx: &mut Ctx, cell: &CellDef, case: &Case, out: &str) {
 fn big_cells(kind: &str, n: usize) -> Vec<&'static str> {
     match (kind, n > 1000) {
         // (the critical-bit stub stores nothing; one parallel front end is enough)
-        ("dense3", false) => CELLS.iter().filter(|c| c.kind != Kind::CritBit && c.name != "ParallelLoudsTrie").map(|c| c.name).collect(),
+        ("dense3", false) => CELLS.iter().filter(|c| c.kind != Kind::CritBit && c.name != "ParallelLoudsTrie" && c.name != DAWG_CAPPED).map(|c| c.name).collect(),
         // the wrapper types only have the insert door that recomputes the statistics: no 70000-key sets for them
         ("dense3", true) => vec!["ZiporaTrie/default", "ZiporaTrie/varied(Patricia)", "ZiporaTrie/concurrent_high_performance", "ZiporaTrie/varied(DoubleArray)", "SimpleDawg", "NestedTrieDawg(Trie::insert)"],
         _ => vec!["ZiporaTrie/cache_optimized", "ZiporaTrie/sparse_optimized", "CompressedSparseTrie(varied)", "ZiporaTrie/space_optimized", "NestedLoudsTrie(varied)", "ZiporaTrie/custom(DoubleArray,CacheOptimized)", "DoubleArrayTrie(wrapper)", "SimpleDawg", "NestedTrieDawg(Trie::insert)"],
@@ -1387,6 +1446,18 @@ pub fn run(args: &Args) {
         cx.sum.dist("staged_histories");
     }
     tr("staged done");
+    // refused operations inside histories (deterministic): every cell, oracle and - where the history stays inside a model - Coq replay
+    for (i, ops) in refused().into_iter().enumerate() {
+        if !phase("refused") { break; }
+        let mut case = Case::plain(ops);
+        case.cfg = 101 + i as u64;
+        for cell in CELLS {
+            if cell.name.starts_with("ParallelLoudsTrie") && i % 4 != 0 { continue; }
+            history(&mut cx, cell, &case, false, coq_turn(cell, i));
+        }
+        cx.sum.dist("refused_family_histories");
+    }
+    tr("refused done");
     // big key sets, described by (kind, n, seed)
     let bigs: Vec<(&str, usize)> = if q { vec![("dense3", 300), ("dense3", 70000), ("long", 450)] } else { vec![("dense3", 255), ("dense3", 256), ("dense3", 300), ("dense3", 65535), ("dense3", 65536), ("dense3", 70643), ("long", 450), ("long", 800)] };
     for (bi, (kind, n)) in bigs.into_iter().enumerate() {
